@@ -195,3 +195,30 @@ func vIntHostileText(p string) {
 
 func VerifC20_IntHostileText()        { vIntHostileText("C20.int.hostile-text") }
 func VerifC11_IntFieldDecodeNoPanic() { vIntHostileText("C11.decode.integer-field") }
+
+// VerifC20_AddressJSON: every 20-byte address - the all-zero one, ones with leading/trailing zero bytes, arbitrary ones -
+// survives its JSON (hex string) form unchanged; only the nil / zero-length address encodes as the empty string.
+func VerifC20_AddressJSON() {
+	var a Address
+	switch zz.Choice("address", 4) {
+	case 0:
+		a = Address(make([]byte, AddrLen)) // all zero
+	case 1:
+		a = Address(append(make([]byte, AddrLen-1), 1))
+	case 2:
+		a = Address(zz.Bytes("addr", AddrLen))
+	case 3:
+		a = nil
+	}
+	bz, err := a.MarshalJSON()
+	zz.Assert("C20.address-json.marshal-ok", err == nil)
+	var b Address
+	err = b.UnmarshalJSON(bz)
+	if a == nil {
+		zz.Reach("C20.address-json.nil")
+		return
+	}
+	zz.Assert("C20.address-json.roundtrip", err == nil && len(b) == AddrLen && zz.BytesEqual(a, b))
+	zz.Assert("C20.address-json.not-confused-with-absent", !a.Empty() && a.String() != "")
+	zz.Reach("C20.address-json.end")
+}
